@@ -61,9 +61,45 @@ fn ns(tier: Tier) -> Vec<u64> {
         v.push(p + 1);
     }
     v.push((1u64 << 63) - 1);
+    // every word of config.json (currency codes, aliases, month names, unit names, keywords ...)
+    // that happens to be a string of hex digits, alone and with a digit in front of / behind it:
+    // '0x1aed' must be the number 6893, not '0x' followed by 1 AED
+    for w in hex_words() {
+        for t in [w.clone(), format!("1{}", w), format!("2{}", w), format!("{}7", w), format!("10{}", w)] {
+            if let Ok(n) = u64::from_str_radix(&t, 16) {
+                v.push(n);
+            }
+        }
+    }
     v.sort();
     v.dedup();
     v
+}
+
+fn hex_words() -> Vec<String> {
+    fn walk(j: &serde_json::Value, out: &mut std::collections::BTreeSet<String>) {
+        fn add(s: &str, out: &mut std::collections::BTreeSet<String>) {
+            for w in s.split(|c: char| !c.is_alphanumeric()) {
+                if w.len() >= 2 && w.len() <= 8 && w.chars().all(|c| matches!(c, 'a'..='f' | 'A'..='F')) {
+                    out.insert(w.to_lowercase());
+                }
+            }
+        }
+        match j {
+            serde_json::Value::String(s) => add(s, out),
+            serde_json::Value::Array(a) => a.iter().for_each(|x| walk(x, out)),
+            serde_json::Value::Object(o) => {
+                for (k, x) in o {
+                    add(k, out);
+                    walk(x, out);
+                }
+            }
+            _ => {}
+        }
+    }
+    let mut out = std::collections::BTreeSet::new();
+    walk(&crate::spec::spec().json, &mut out);
+    out.into_iter().collect()
 }
 
 /// f64 can represent n exactly?
@@ -85,7 +121,7 @@ impl Prop for C13 {
             f.push(Family::new(
                 "literals",
                 Mode::Full,
-                &format!("every n in 0..={} and 2^k-1, 2^k, 2^k+1 (k<=62), 2^63-1 written in base 16 (lower/upper digits, 0x/0X), 8 (0o/0O) and 2 (0b/0B): the literal denotes n in that base", tier.pick(1_100, 70_000)),
+                &format!("every n in 0..={} and 2^k-1, 2^k, 2^k+1 (k<=62), 2^63-1, and every n whose hex digits contain a word of config.json (currency code, alias, month, unit ...) written in base 16 (lower/upper digits, 0x/0X), 8 (0o/0O) and 2 (0b/0B): the literal denotes n in that base", tier.pick(1_100, 70_000)),
                 move |ch| {
                     let n = *ch.pick(&all);
                     let (base, upper_digits, upper_prefix) = *ch.pick(&[
